@@ -183,9 +183,69 @@ func (p *Prog) vtaCallees(in ssa.CallInstruction) []*ssa.Function {
 	for _, e := range n.Out {
 		if e.Site == in && !seen[e.Callee.Func] {
 			seen[e.Callee.Func] = true
+			if p.Cfg.UseCHA && p.neverAllocatedRecv(e.Callee.Func) {
+				continue // CHA adds every implementation; a type that is never allocated in the loaded code has no values
+			}
 			out = append(out, e.Callee.Func)
 		}
 	}
 	sort.Slice(out, func(i, j int) bool { return FuncName(out[i]) < FuncName(out[j]) })
 	return out
+}
+
+// neverAllocatedRecv: fn is a method of a repo struct type for which the loaded (non-test) program contains no
+// allocation, composite literal or conversion producing a value: no receiver can exist at run time.
+func (p *Prog) neverAllocatedRecv(fn *ssa.Function) bool {
+	if fn == nil || fn.Signature.Recv() == nil || !p.IsRepoFunc(fn) {
+		return false
+	}
+	n := namedOf(derefType(fn.Signature.Recv().Type()))
+	if n == nil {
+		return false
+	}
+	if _, isStruct := n.Underlying().(*types.Struct); !isStruct {
+		return false
+	}
+	if p.noAlloc == nil {
+		p.noAlloc = map[*types.Named]bool{}
+		alloc := map[*types.Named]bool{}
+		for f := range p.AllFuncs {
+			instrsOf(f, func(in ssa.Instruction) {
+				switch x := in.(type) {
+				case *ssa.Alloc:
+					if t := namedOf(derefType(x.Type())); t != nil {
+						alloc[t.Origin()] = true
+					}
+				case *ssa.MakeInterface:
+					if t := namedOf(derefType(x.X.Type())); t != nil {
+						if _, isPtr := x.X.Type().Underlying().(*types.Pointer); !isPtr {
+							alloc[t.Origin()] = true
+						}
+					}
+				}
+			})
+		}
+		for _, pk := range p.Pkgs {
+			sc := pk.Types.Scope()
+			for _, name := range sc.Names() {
+				if tn, ok := sc.Lookup(name).(*types.TypeName); ok {
+					if t := namedOf(tn.Type()); t != nil {
+						if _, isStruct := t.Underlying().(*types.Struct); isStruct && !alloc[t.Origin()] {
+							// package-level variables of the type also create values
+							hasGlobal := false
+							for _, n2 := range sc.Names() {
+								if v, ok := sc.Lookup(n2).(*types.Var); ok && namedOf(derefType(v.Type())) == t {
+									hasGlobal = true
+								}
+							}
+							if !hasGlobal {
+								p.noAlloc[t.Origin()] = true
+							}
+						}
+					}
+				}
+			}
+		}
+	}
+	return p.noAlloc[n.Origin()]
 }
